@@ -119,6 +119,15 @@ fn judge(mode: Mode, tracks: &[Track], before_b: &[Vec<u8>], before_p: &[Vec<boo
                 if !rep.is_write {
                     ensure!(after_b == before_b[ri], "{}: a read-type operation changed guest memory", what);
                 }
+                // "exactly the pages that overlap": the other half, judged on the byte diff
+                for o in 0..tr.size {
+                    if after_b[o] != before_b[ri][o] {
+                        let p = tr.page_of(o);
+                        if !after_p.get(p).copied().unwrap_or(false) {
+                            return Err(format!("{}: byte at offset {} of region {} was written ({:#04x} -> {:#04x}) but page {} (page size {}, bitmap base {}) was not marked", what, o, ri, before_b[ri][o], after_b[o], p, tr.page, tr.base));
+                        }
+                    }
+                }
             }
         }
     }
